@@ -306,7 +306,16 @@ pub struct C09;
 /// Optional dump of recorded gzip histories for the offline zlib re-check (thorough tier).
 static DUMP: Mutex<Option<std::fs::File>> = Mutex::new(None);
 
-fn dump_history(o: &StreamObs, marks: &[(u64, u64)]) {
+static DUMPED: std::sync::atomic::AtomicU64 = std::sync::atomic::AtomicU64::new(0);
+
+fn dump_history(o: &StreamObs, marks: &[(u64, u64)], prefix_only: bool) {
+    if std::env::var_os("HSV_GZ_DUMP").is_none() || o.delivered.len() > 300_000 {
+        return;
+    }
+    let max: u64 = std::env::var("HSV_GZ_DUMP_MAX").ok().and_then(|v| v.parse().ok()).unwrap_or(200 << 20);
+    if DUMPED.fetch_add(2 * (o.delivered.len() + o.accepted.len()) as u64, std::sync::atomic::Ordering::Relaxed) > max {
+        return;
+    }
     if let Ok(mut g) = DUMP.lock() {
         if g.is_none() {
             if let Some(p) = std::env::var_os("HSV_GZ_DUMP") {
@@ -315,7 +324,7 @@ fn dump_history(o: &StreamObs, marks: &[(u64, u64)]) {
         }
         if let Some(f) = g.as_mut() {
             let hex = |b: &[u8]| b.iter().map(|x| format!("{:02x}", x)).collect::<String>();
-            let _ = writeln!(f, "{}", json!({"stream": hex(&o.delivered), "plain": hex(&o.accepted), "flush_marks": marks}));
+            let _ = writeln!(f, "{}", json!({"stream": hex(&o.delivered), "plain": hex(&o.accepted), "flush_marks": marks, "prefix_only": prefix_only}));
         }
     }
 }
@@ -370,7 +379,7 @@ pub fn c09_judge(c: &StreamCase, o: &StreamObs, sink: &mut Sink) -> (Verdict, Op
                         Err(e) => return (Verdict::viol("mid-stream-undecodable", format!("step {}: frames so far ({} bytes) do not inflate: {}", i, avail.len(), e)), None),
                         Ok(plain) => {
                             if (plain.len() as u64) < flushed_mark {
-                                dump_history(&StreamObs { delivered: avail.to_vec(), accepted: o.accepted[..flushed_mark as usize].to_vec(), ..o.clone() }, &[(s.delivered, flushed_mark)]);
+                                dump_history(&StreamObs { delivered: avail.to_vec(), accepted: o.accepted[..flushed_mark as usize].to_vec(), ..o.clone() }, &[(s.delivered, flushed_mark)], true);
                                 return (
                                     Verdict::viol("flushed-bytes-not-decodable", format!("step {}: {} bytes were written before the flush, a streaming decoder fed the {} available bytes yields {}", i, flushed_mark, avail.len(), plain.len())),
                                     None,
@@ -406,7 +415,7 @@ pub fn c09_judge(c: &StreamCase, o: &StreamObs, sink: &mut Sink) -> (Verdict, Op
     if o.accepted.is_empty() {
         sink.count("empty_payload_members");
     }
-    dump_history(o, &marks);
+    dump_history(o, &marks, false);
     (Verdict::Ok, Some(hash64(c)))
 }
 
@@ -812,6 +821,13 @@ pub fn c11_seq_judge(c: &StreamCase, o: &StreamObs, sink: &mut Sink) -> (Verdict
 /// Memory clause: (a) what was queued is released once the body is dropped; (b) a writer whose
 /// body is gone does not buffer without bound.
 pub fn c11_memory_case(chunk: usize, gzip: Option<u32>, sink: &mut Sink) -> (Verdict, Option<u64>, Value) {
+    match crate::util::catch(std::panic::AssertUnwindSafe(|| c11_memory_case_inner(chunk, gzip, sink))) {
+        Ok(r) => r,
+        Err(p) => (Verdict::viol(format!("panic|memory-case@{}", norm_loc(&p)), format!("writer operation panicked: {}", p)), None, json!({"memory_case": {"chunk": chunk, "gzip_level": gzip}})),
+    }
+}
+
+fn c11_memory_case_inner(chunk: usize, gzip: Option<u32>, sink: &mut Sink) -> (Verdict, Option<u64>, Value) {
     use crate::e2::build;
     let mut case = StreamCase::raw(chunk, vec![]);
     if let Some(l) = gzip {
@@ -822,26 +838,28 @@ pub fn c11_memory_case(chunk: usize, gzip: Option<u32>, sink: &mut Sink) -> (Ver
         Some((resp, Some(w))) => (resp, w),
         _ => return (Verdict::DontCare("no writer".into()), None, desc),
     };
-    let (resp, mut w) = built;
+    let (resp, w) = built;
+    let mut resp = crate::util::LeakOnPanic::new(resp);
+    let mut w = crate::util::LeakOnPanic::new(w);
     let mode = if gzip.is_some() { "gzip" } else { "raw" };
     let base = crate::alloc::live();
     // queue >= 1 MiB of incompressible data
     let data = payload(Payload::Hash, 0, 64 * 1024);
     let mut total = 0usize;
     while total < (3 << 19) {
-        if w.write_all(&data).is_err() {
+        if w.get().write_all(&data).is_err() {
             return (Verdict::DontCare("write failed while the body was alive (C08)".into()), None, desc);
         }
         total += data.len();
     }
-    let _ = w.flush();
+    let _ = w.get().flush();
     let queued = crate::alloc::live() - base;
     if queued < (1 << 20) {
         return (Verdict::DontCare(format!("only {} bytes queued", queued)), None, desc);
     }
-    drop(resp); // client gone
-    let _ = w.write(&data[..1]);
-    let _ = w.flush();
+    drop(resp.take()); // client gone
+    let _ = w.get().write(&data[..1]);
+    let _ = w.get().flush();
     let after = crate::alloc::live() - base;
     if after > queued / 10 {
         return (
@@ -855,10 +873,10 @@ pub fn c11_memory_case(chunk: usize, gzip: Option<u32>, sink: &mut Sink) -> (Ver
     let chunk_data = payload(Payload::Hash, 7, chunk.max(1));
     let mut errors = 0;
     for _ in 0..1000 {
-        if w.write_all(&chunk_data).is_err() {
+        if w.get().write_all(&chunk_data).is_err() {
             errors += 1;
         }
-        if w.flush().is_err() {
+        if w.get().flush().is_err() {
             errors += 1;
         }
     }
@@ -872,7 +890,7 @@ pub fn c11_memory_case(chunk: usize, gzip: Option<u32>, sink: &mut Sink) -> (Ver
     }
     sink.count("memory_release_checked");
     sink.add("memory_case_errors_reported", errors);
-    drop(w);
+    drop(w.take());
     (Verdict::Ok, Some(hash64(&(chunk, gzip))), desc)
 }
 
